@@ -4,6 +4,10 @@ import P0f.Props.C13
 import P0f.Generated.Logic.WindowMultiplier
 import P0f.Generated.Logic.TcpSignaturesMatch
 import P0f.Generated.Logic.ImpersonateOptions
+import P0f.Generated.Logic.ReadHeaders
+import P0f.Generated.Logic.ReadPayload
+import P0f.Generated.Logic.ParseFile
+import P0f.Props.C04Http
 /-
   No ZeroDivisionError in the uptime path (C04, C13): the division-safety companions the translator prints next to
   `fingerprint_uptime` and `Uptime.__post_init__` (same control skeleton, `false` exactly where a division is reached with a zero
@@ -32,10 +36,10 @@ theorem isZero_ofInt (x : Int) : Q.isZero (Q.ofInt x) = (x == 0) := rfl
 
 /-- `Uptime.__post_init__` never divides by zero on a reading that truncates to a non-negative integer: `round_frequency` is
     positive there -/
-theorem gen_uptimePostInit_divok (ts : Nat) (raw : Q) (h : 0 ≤ Q.trunc raw) : Gen.uptimePostInit_divok ts raw = true := by
+theorem gen_uptimePostInit_safe (ts : Nat) (raw : Q) (h : 0 ≤ Q.trunc raw) : Gen.uptimePostInit_safe ts raw = true := by
   first
   | exact rfl
-  | (unfold Gen.uptimePostInit_divok
+  | (unfold Gen.uptimePostInit_safe
      rw [gen_roundFrequency raw h]
      have h1 := (roundFrequency_spec (Q.trunc raw).toNat).1
      generalize roundFrequency (Q.trunc raw).toNat = f at *
@@ -47,15 +51,15 @@ theorem gen_uptimePostInit_divok (ts : Nat) (raw : Q) (h : 0 ≤ Q.trunc raw) : 
     documented domain, every division the printed function reaches (`… / ms_diff`, and through `Uptime(...)` the divisions by
     the rounded frequency) has a non-zero divisor.  (`max_timestamp_scale / timestamp_grace` sits inside an `and` chain: the companion
     checks it under the conjuncts before it.) -/
-theorem gen_fingerprintUptime_divok (o : UpOpts) (hD : o.Dom) (frag : Bool) (t a b : Nat) (now rcv : Int) :
-    Gen.fingerprintUptime_divok o frag t a b now rcv = true := by
+theorem gen_fingerprintUptime_safe (o : UpOpts) (hD : o.Dom) (frag : Bool) (t a b : Nat) (now rcv : Int) :
+    Gen.fingerprintUptime_safe o frag t a b now rcv = true := by
   first
   | exact rfl
-  | (unfold Gen.fingerprintUptime_divok
+  | (unfold Gen.fingerprintUptime_safe
      have hw := hD.wait
      have hg := hD.grace
-     have fb : ∀ (ts : Nat) (r : Q), Q.le (Q.mk (o.minScaleN : Int) o.minScaleD) r = true → Gen.uptimePostInit_divok ts r = true :=
-       fun ts r h => gen_uptimePostInit_divok ts r (trunc_nonneg_of_min o hD r h)
+     have fb : ∀ (ts : Nat) (r : Q), Q.le (Q.mk (o.minScaleN : Int) o.minScaleD) r = true → Gen.uptimePostInit_safe ts r = true :=
+       fun ts r h => gen_uptimePostInit_safe ts r (trunc_nonneg_of_min o hD r h)
      simp only [isZero_ofInt]
      grind (splits := 60))
 
@@ -79,10 +83,10 @@ theorem firstHit_const {α β : Type} (l : List α) (p : α → Bool) (b : β) :
 
 /-- **`calculate_window_multiplier` never divides by zero**: every candidate divisor is tested for truth before `window % div`
     and `window // div` (for every packet signature, `syn_mss = 12` included, where the candidate `syn_mss - 12` is 0) -/
-theorem gen_windowMult_divok (p : WIn) : Gen.windowMult_divok p = true := by
+theorem gen_windowMult_safe (p : WIn) : Gen.windowMult_safe p = true := by
   first
   | exact rfl
-  | (unfold Gen.windowMult_divok
+  | (unfold Gen.windowMult_safe
      simp only [any_ne_and_eq, any_ne_and_eq', Bool.false_eq_true, if_false, firstHit_const]
      first
      | rfl
@@ -91,11 +95,11 @@ theorem gen_windowMult_divok (p : WIn) : Gen.windowMult_divok p = true := by
 
 /-- **`tcp_signatures_match` never divides by zero** on a signature whose `%n` window has a non-zero modulus (what
     `_parse_window` guarantees, `parseWindow_range`: 1 … 65535) -/
-theorem gen_tcpSignaturesMatch_divok (s : Sig) (p : PSig) (maxDist : Int) (h : s.wtype = WinType.mod → s.wsize ≠ 0) :
-    Gen.tcpSignaturesMatch_divok s p maxDist = true := by
+theorem gen_tcpSignaturesMatch_safe (s : Sig) (p : PSig) (maxDist : Int) (h : s.wtype = WinType.mod → s.wsize ≠ 0) :
+    Gen.tcpSignaturesMatch_safe s p maxDist = true := by
   first
   | exact rfl
-  | (unfold Gen.tcpSignaturesMatch_divok
+  | (unfold Gen.tcpSignaturesMatch_safe
      by_cases hm : s.wtype = WinType.mod
      · have := h hm
        have e : ((((s.wsize : Nat) : Int)) == 0) = false := by simp; omega
@@ -112,18 +116,18 @@ theorem elim_eq_match' {α β : Type} (o : Option α) (e : β) (f : α → β) :
 /-- **`_impersonate_options` never divides by zero** on a signature whose `mss*n` window has a non-zero multiplier (what
     `_parse_window` guarantees, `parseWindow_range`: 1 … 1000): the only division, `(2**16 - 1) // signature.window.size`, is behind
     the window-type test -/
-theorem gen_impOptions_divok (s : Sig) (b : Base) (uptime : Option Int) (c : Choices) (h : s.wtype = WinType.mss → s.wsize ≠ 0) :
-    Gen.impOptions_divok s b uptime c = true := by
+theorem gen_impOptions_safe (s : Sig) (b : Base) (uptime : Option Int) (c : Choices) (h : s.wtype = WinType.mss → s.wsize ≠ 0) :
+    Gen.impOptions_safe s b uptime c = true := by
   first
   | exact rfl
   | (have hl : ∀ (t : Nat) (ks : List Nat) (options : List SOpt) (cs : List (Nat × Nat)),
-         Gen.impOptions_divok_loop0 s b uptime c t ks options cs = true := by
+         Gen.impOptions_safe_loop0 s b uptime c t ks options cs = true := by
        intro t ks
        induction ks with
-       | nil => intros; unfold Gen.impOptions_divok_loop0; rfl
+       | nil => intros; unfold Gen.impOptions_safe_loop0; rfl
        | cons k ks ih =>
          intro options cs
-         unfold Gen.impOptions_divok_loop0
+         unfold Gen.impOptions_safe_loop0
          simp only [ih]
          by_cases hm : s.wtype = WinType.mss
          · have := h hm
@@ -133,7 +137,73 @@ theorem gen_impOptions_divok (s : Sig) (b : Base) (uptime : Option Int) (c : Cho
          · have e : (s.wtype == WinType.mss) = false := by simpa using hm
            simp only [e, Bool.false_eq_true, if_false, elim_eq_match']
            grind (splits := 200) [Sum.elim_inl, Sum.elim_inr]
-     unfold Gen.impOptions_divok
+     unfold Gen.impOptions_safe
+     simp only [hl])
+
+
+/-- **`read_headers` raises no IndexError** on lines none of which is empty: `line[0]` has a byte to read, `headers[-1]` is only
+    touched behind `if not headers: raise` -/
+theorem gen_readHeaders_safe (lines : List Bytes) (hne : ∀ l ∈ lines, l ≠ []) : Gen.readHeaders_safe lines = true := by
+  first
+  | exact rfl
+  | (have hl : ∀ (ls : List Bytes) (acc : List Hdr), (∀ l ∈ ls, l ≠ []) → Gen.readHeaders_safe_loop0 lines ls acc = true := by
+       intro ls
+       induction ls with
+       | nil => intros; unfold Gen.readHeaders_safe_loop0; rfl
+       | cons line rest ih =>
+         intro acc h
+         have hrest : ∀ l ∈ rest, l ≠ [] := fun l hl => h l (List.mem_cons_of_mem _ hl)
+         have hline : line ≠ [] := h line (List.mem_cons_self)
+         unfold Gen.readHeaders_safe_loop0
+         have hlen : decide (List.length line ≤ 0) = false := by
+           cases line with
+           | nil => exact absurd rfl hline
+           | cons c t => simp
+         have ih' : ∀ acc, Gen.readHeaders_safe_loop0 lines rest acc = true := fun acc => ih acc hrest
+         simp only [hlen, Bool.false_eq_true, if_false, ih']
+         grind (splits := 60) [Sum.elim_inl, Sum.elim_inr]
+     unfold Gen.readHeaders_safe
+     exact hl lines [] hne)
+
+/-- **`read_payload` raises no IndexError, for EVERY byte string**: `lines[0]` is behind `if not lines`, and the lines h11 extracts
+    are never empty (`extractLines_nonempty`), so `read_headers` is safe on them (C04 for the HTTP reader, at source level) -/
+theorem gen_readPayload_safe (data : Bytes) : Gen.readPayload_safe data = true := by
+  first
+  | exact rfl
+  | (unfold Gen.readPayload_safe
+     simp only []
+     cases he : extractLines data with
+     | none => rfl
+     | some ls =>
+       cases ls with
+       | nil => rfl
+       | cons first rest =>
+         have hne := extractLines_nonempty data _ he
+         have hrest : ∀ l ∈ rest, l ≠ [] := fun l hl => hne l (List.mem_cons_of_mem _ hl)
+         have hs := gen_readHeaders_safe rest hrest
+         simp only [Option.elim_some, List.isEmpty_cons, Bool.false_eq_true, if_false, List.map_id', List.length_cons, List.drop_one, List.tail_cons, hs]
+         simp only [Bool.not_true, Bool.false_eq_true, if_false, elim_eq_match', Nat.le_zero_eq, Nat.add_one_ne_zero, decide_false]
+         first
+         | rfl
+         | grind (splits := 40))
+
+/-- **`_parse_file` raises no IndexError, for EVERY sequence of lines**: `line[0]` is only read behind `if not line` (C10, at source
+    level; the model keeps the IndexError as an outcome and `parseLines_closed` shows it unreachable - this is the same fact about
+    the printed function) -/
+theorem gen_parseFileLines_safe (ls : List (List Char)) : Gen.parseFileLines_safe ls = true := by
+  first
+  | exact rfl
+  | (have hl : ∀ (l : List (List Char)) (db : Db) (dir : Option Dir) (label : Option DbLabel) (n : Nat) (rc : Option RecKind) (state : PState),
+         Gen.parseFileLines_safe_loop0 ls l db dir label n rc state = true := by
+       intro l
+       induction l with
+       | nil => intros; unfold Gen.parseFileLines_safe_loop0; rfl
+       | cons x xs ih =>
+         intros
+         unfold Gen.parseFileLines_safe_loop0
+         simp only [ih, elim_eq_match']
+         grind (splits := 400) [Sum.elim_inl, Sum.elim_inr]
+     unfold Gen.parseFileLines_safe
      simp only [hl])
 
 end P0f
